@@ -45,6 +45,16 @@ class _Canon(ast.NodeTransformer):
             return ast.copy_location(ast.BinOp(node.args[0], UFUNC_OPS[fn](), node.args[1]), node)
         if fn == "np.negative" and len(node.args) == 1 and not node.keywords:
             return ast.copy_location(ast.UnaryOp(ast.USub(), node.args[0]), node)
+        # np.array(k * [0], dtype=D) / np.array([0] * k, dtype=D) / np.full(k, 0, dtype=D)   ->   np.zeros(k, dtype=D)
+        if fn == "np.array" and len(node.args) == 1 and isinstance(node.args[0], ast.BinOp) and isinstance(node.args[0].op, ast.Mult) and all(k.arg == "dtype" for k in node.keywords):
+            l, r = node.args[0].left, node.args[0].right
+            for lst, cnt in ((l, r), (r, l)):
+                if isinstance(lst, ast.List) and len(lst.elts) == 1 and isinstance(lst.elts[0], ast.Constant) and type(lst.elts[0].value) in (int, float) and lst.elts[0].value == 0 \
+                        and not isinstance(cnt, (ast.List, ast.Tuple)):
+                    return ast.copy_location(ast.Call(ast.Attribute(ast.Name("np", ast.Load()), "zeros", ast.Load()), [cnt], node.keywords), node)
+        if fn == "np.full" and len(node.args) == 2 and isinstance(node.args[1], ast.Constant) and type(node.args[1].value) in (int, float) and node.args[1].value == 0 \
+                and all(k.arg == "dtype" for k in node.keywords) and node.keywords:
+            return ast.copy_location(ast.Call(ast.Attribute(ast.Name("np", ast.Load()), "zeros", ast.Load()), [node.args[0]], node.keywords), node)
         return node
 
 
@@ -570,7 +580,7 @@ def _simple_arg(e):
     return False
 
 
-def inline_new_helpers(tree, known_functions, rel):
+def inline_new_helpers(tree, known_functions, rel, multi=frozenset()):
     """Inline calls to NEW private helpers (module-level functions or methods of the same class)."""
     ft = function_table(tree)
     new = {q: f for q, f in ft.items() if q not in known_functions and ".<locals>." not in q and _simple_helper(f)}
@@ -581,6 +591,7 @@ def inline_new_helpers(tree, known_functions, rel):
         return False
     changed = False
     counter = [0]
+    bases = {c.name: [b.id for b in c.bases if isinstance(b, ast.Name)] for c in tree.body if isinstance(c, ast.ClassDef)}
     for q, fn in list(ft.items()):
         if q in new or q in new_nested:
             continue
@@ -595,9 +606,22 @@ def inline_new_helpers(tree, known_functions, rel):
             if isinstance(f, ast.Name) and f.id in new:
                 return new[f.id], False
             if isinstance(f, ast.Attribute) and isinstance(f.value, ast.Name) and f.value.id == "self" and cls is not None:
-                k = "%s.%s" % (cls, f.attr)
-                if k in new:
-                    return new[k], True
+                # the method the call resolves to: the class itself, then its bases defined in this module (pull-up method);
+                # only when no other class anywhere overrides the helper (`multi` = method names defined in several classes)
+                if f.attr in multi:
+                    return None, False
+                todo, seen = [cls], set()
+                while todo:
+                    c = todo.pop(0)
+                    if c in seen:
+                        continue
+                    seen.add(c)
+                    k = "%s.%s" % (c, f.attr)
+                    if k in new:
+                        return new[k], True
+                    if k in ft:
+                        return None, False
+                    todo += bases.get(c, [])
             return None, False
 
         def bind(h, call, is_method):
@@ -894,14 +918,14 @@ def restore_call_shapes(fn, frozen_calls, sigs):
     return changed
 
 
-def normalise(rel, tree, frozen, pure=frozenset(), sigs=None):
+def normalise(rel, tree, frozen, pure=frozenset(), sigs=None, multi=frozenset()):
     """In-place normalisation of one module's AST.  Returns a dict describing what was done."""
     info = {"inlined_locals": [], "inlined_helpers": False}
     canon_tree(tree, cython=rel.endswith(".pyx"))
     if frozen is None or rel not in frozen:
         return info
     known = frozen[rel]["functions"]
-    info["inlined_helpers"] = inline_new_helpers(tree, set(known), rel)
+    info["inlined_helpers"] = inline_new_helpers(tree, set(known), rel, multi)
     texts = frozen[rel].get("text", {})
 
     def guided_pass(tag):
